@@ -35,7 +35,7 @@ pub fn default_cfg() -> SCfg { SCfg { cltv_delta: 34, policy_delta: 144, base: 1
 type Mgr = HtlcManager<BlockWatcher, NoNotify, PayPaymentProvider<Rpc>, ClnDatastore>;
 
 /// one delivered `htlc_accepted` call
-pub struct Call { pub id: u64, pub amount: u64, pub expiry: u32, pub hash: Vec<u8>, pub jh: Option<tokio::task::JoinHandle<Result<HtlcAcceptedResponse, ()>>>, pub resp: Option<String>, pub life: u32 }
+pub struct Call { pub id: u64, pub a: u64, pub b11: u8, pub amount: u64, pub expiry: u32, pub hash: Vec<u8>, pub jh: Option<tokio::task::JoinHandle<Result<HtlcAcceptedResponse, ()>>>, pub resp: Option<String>, pub life: u32 }
 
 /// everything that survives a crash
 pub struct World {
@@ -64,7 +64,9 @@ pub struct World {
     pub restart_aid: Option<String>,
     pub init_snap: Option<(u64, u32)>,
     pub other: Option<(String, Vec<u8>, String)>,   // a second payment hash frozen at its first RPC: (hash hex, hash, invoice)
-    pub other_call: Option<tokio::task::JoinHandle<Result<HtlcAcceptedResponse, ()>>>,   // (min expiry of the htlcs held, height) when the payment was initiated
+    pub other_call: Option<tokio::task::JoinHandle<Result<HtlcAcceptedResponse, ()>>>,
+    pub no_pay: Vec<u64>,        // C07: calls of a set that was rejected while incomplete (no pay until they are answered)
+    pub hold: Vec<u64>,          // parked requests (by seq) the cooperative environment leaves unanswered for now
 }
 
 fn state_key(hash_hex: &str) -> Vec<String> { vec!["trampoline".into(), "payments".into(), hash_hex.into(), "state".into()] }
@@ -78,7 +80,7 @@ impl World {
         { let mut n = node.lock().unwrap(); n.height = 1000; n.node_id = pubkey(LOCAL).to_string(); }
         World { node, hash_hex: hash.to_string(), hash: hash.to_byte_array().to_vec(),
             inv_fixed: make_invoice(&pre, Some(1_000_000), 0, 2), inv_open: make_invoice(&pre, None, 0, 2), open, inv_amount: 1_000_000, cfg,
-            calls: vec![], aids: vec![], acts: vec![], obs: vec![], life: 0, fault_read: false, lost_write: false, fault_kind: String::new(), height: 1000, model_wall: 0, stamp: BTreeMap::new(), mono: 0, wait_started: None, next_part: 1, restart_aid: None, init_snap: None, other: None, other_call: None }
+            calls: vec![], aids: vec![], acts: vec![], obs: vec![], life: 0, fault_read: false, lost_write: false, fault_kind: String::new(), height: 1000, model_wall: 0, stamp: BTreeMap::new(), mono: 0, wait_started: None, next_part: 1, restart_aid: None, init_snap: None, other: None, other_call: None, no_pay: vec![], hold: vec![] }
     }
     fn aid_canon(&mut self, aid: &str) -> usize {
         if let Some(p) = self.aids.iter().position(|a| a == aid) { return p + 1; }
@@ -220,6 +222,8 @@ async fn observe(w: &mut World, ctx: &mut Ctx, pay_seen: &mut Vec<u64>, act: &st
         let amount = msat(&p["amount_msat"]); let maxfee = msat(&p["maxfee"]).unwrap_or(u64::MAX); let maxdelay = p["maxdelay"].as_u64().unwrap_or(u64::MAX);
         pays.push(format!("{}:{}:{}:{}", bid, amount.map(|a| a.to_string()).unwrap_or("-".into()), maxfee, maxdelay));
         oracle_pay(w, ctx, amount, maxfee, maxdelay, act);
+        let marked: Vec<u64> = w.calls.iter().filter(|c| c.resp.is_none() && c.life == w.life && w.no_pay.contains(&c.id)).map(|c| c.id).collect();
+        if !marked.is_empty() { ctx.violation("C07", "pay-after-reject", &format!("pay issued although htlcs {:?} belong to a set that was rejected while incomplete REPLAY[{}]", marked, replay(w))); }
         { let mut n = w.node.lock().unwrap(); *n.pay_running.entry(w.hash_hex.clone()).or_insert(0) += 1; }
     }
     oracle_step(w, ctx, &resps, act);
@@ -301,9 +305,17 @@ pub async fn apply(w: &mut World, p: &Plugin, rng: &mut Rng, act: &str) -> Step 
         let id = w.calls.len() as u64;
         let tlv = if w.open { Some(amt) } else if amt != w.inv_amount { Some(amt) } else { None };
         let req = make_req(w, b11, tlv, hamt, expiry, rel, total, id);
+        // C07 bookkeeping, from the property's own words: does this HTLC trigger a rejection of a still-incomplete set?
+        let is_tramp = w.open || amt == w.inv_amount;
+        if is_tramp {
+            let (first, sum): (Option<(u8, u64)>, u128) = { let h = held(w); (h.first().map(|c| (c.b11, c.a)), h.iter().map(|c| c.amount as u128).sum()) };
+            let (b0, a0) = first.unwrap_or((b11, amt));
+            let rejecting = (b11, amt) != (b0, a0) || rel < w.cfg.policy_delta as i64 || (total.unwrap_or(hamt) as u128) < need(w, amt);
+            if rejecting && sum < need(w, a0) { let mut ids: Vec<u64> = held(w).iter().map(|c| c.id).collect(); ids.push(id); w.no_pay = ids; }
+        }
         let m = p.mgr.clone();
         let jh = tokio::spawn(async move { AssertUnwindSafe(m.handle_htlc(&req)).catch_unwind().await.map_err(|_| ()) });
-        w.calls.push(Call { id, amount: hamt, expiry, hash: w.hash.clone(), jh: Some(jh), resp: None, life: w.life });
+        w.calls.push(Call { id, a: amt, b11, amount: hamt, expiry, hash: w.hash.clone(), jh: Some(jh), resp: None, life: w.life });
     } else if let Some(dt) = act.strip_prefix("tm") { let dt: u64 = dt.parse().unwrap(); tokio::time::advance(Duration::from_secs(dt)).await; w.mono += dt; }
     else if let Some(dt) = act.strip_prefix("tw") {
         let dt: u64 = dt.parse().unwrap(); w.model_wall += dt;
@@ -397,7 +409,7 @@ fn would_succeed(w: &mut World, tok: &str) -> bool {
     }
 }
 
-pub struct Gen { pub faults_w: bool, pub faults_r: bool, pub crashes: bool, pub lost: bool, pub replay: bool, pub coop: Option<bool>, pub other: bool }
+pub struct Gen { pub faults_w: bool, pub faults_r: bool, pub crashes: bool, pub lost: bool, pub replay: bool, pub coop: Option<bool>, pub other: bool, pub hold_first: usize }
 
 /// enabled actions of the real system, with multiplicity as weight
 pub fn candidates(w: &mut World, rng: &mut Rng, g: &Gen, step: usize) -> Vec<String> {
@@ -426,7 +438,7 @@ pub fn candidates(w: &mut World, rng: &mut Rng, g: &Gen, step: usize) -> Vec<Str
             let total = match rng.below(16) { 0 => None, 1 => Some(nd - 1), 2 => Some(amt), _ => Some(nd.max(hamt)) };
             let (expiry, rel) = match rng.below(24) { 0 => (w.height + 100, 100i64), 1 => (w.height + 144, 144), 2 => (w.height + 143, 143), 3 => (w.height + 70_000, 70_000), 4 => (w.height + 200, -5), 5 => (w.height + 150, 150), _ => (w.height + 300 + rng.below(300) as u32, 300) };
             let b11 = if rng.coin(1, 25) { 1 } else { 0 };
-            let a = if w.open && rng.coin(1, 20) { amt + 1 } else { amt };
+            let a = if rng.coin(1, 12) { if w.open { *rng.pick(&[amt + 1, amt / 2, amt / 1000]) } else { *rng.pick(&[amt / 1000, amt + 1, amt / 2]) } } else { amt };
             c.push(format!("ar:{}:{}:{}:{}:{}:{}", b11, a, hamt, expiry, rel, total.map(|t| t.to_string()).unwrap_or("-".into())));
         }
     }
@@ -444,7 +456,9 @@ fn cooperative(w: &mut World, complete: bool) -> Option<String> {
     let toks = parked_tokens(w);
     let (parts, running) = { let n = w.node.lock().unwrap(); (n.parts_of(&w.hash_hex), n.pay_running.get(&w.hash_hex).copied().unwrap_or(0) > 0) };
     if let Some((_, tok, _)) = toks.iter().find(|t| t.2) { return Some(format!("d:{}", tok)); }
-    for (_, tok, _) in &toks {
+    let held_idx: Vec<usize> = { let n = w.node.lock().unwrap(); n.parked.iter().enumerate().filter(|(_, p)| w.hold.contains(&p.seq)).map(|(i, _)| i).collect() };
+    for (i, tok, _) in &toks {
+        if held_idx.contains(i) { continue; }
         if tok == "pay" { continue; }
         let is_wait = tok.starts_with('w') && !tok.starts_with("ws") && !tok.starts_with("wa");
         if is_wait { let id: u64 = tok[1..].split('#').next().unwrap().parse().unwrap_or(0); if parts.iter().any(|p| p.id == id && p.st == PSt::Pending) { continue; } }
@@ -479,6 +493,7 @@ pub fn run_case(ctx: &mut Ctx, rng: &mut Rng, sock: &str, open: bool, cfg: SCfg,
     let mut phase = Phase::Random;
     let mut phase_steps = 0usize;
     let mut probe_call: Option<usize> = None;
+    let mut hold_pending = false;
     loop {
         let rt = tokio::runtime::Builder::new_current_thread().enable_all().start_paused(true).build().unwrap();
         let crashed = rt.block_on(async {
@@ -498,11 +513,14 @@ pub fn run_case(ctx: &mut Ctx, rng: &mut Rng, sock: &str, open: bool, cfg: SCfg,
             }
             if w.life == 0 { let o = observe(&mut w, ctx, &mut pay_seen, "boot").await; w.obs.push(o); }
             loop {
+                if script.len() == 1 && g.hold_first > 0 { hold_pending = true; }
                 let act = if let Some(a) = script.pop_front() { a } else if replaying { return false; } else {
+                    if hold_pending { hold_pending = false; let n = w.node.lock().unwrap(); w.hold = n.parked.iter().filter(|p| p.method != "getinfo" && p.served.is_none()).take(g.hold_first).map(|p| p.seq).collect(); }
                     if phase == Phase::Random && step >= len { phase = Phase::Drain; phase_steps = 0; }
+                    if phase != Phase::Random { w.hold.clear(); }
                     match phase {
                         Phase::Random => {
-                            if let Some(complete) = g.coop { match cooperative(&mut w, complete) { Some(a) => a, None => { phase = Phase::Drain; continue; } } }
+                            if let Some(complete) = g.coop { match cooperative(&mut w, complete) { Some(a) => a, None => { phase = Phase::Drain; w.hold.clear(); continue; } } }
                             else { let c = candidates(&mut w, rng, g, step); if c.is_empty() { phase = Phase::Drain; continue; } rng.pick(&c).clone() }
                         }
                         Phase::Drain => {
@@ -565,6 +583,7 @@ pub fn run_case(ctx: &mut Ctx, rng: &mut Rng, sock: &str, open: bool, cfg: SCfg,
         for c in w.calls.iter_mut() { if c.resp.is_none() { c.resp = Some("lost".into()); } c.jh = None; }
         w.life += 1;
         w.init_snap = None;
+        w.no_pay.clear();
         w.obs.push("out=[] resp=[] pay=[]".into());
         ctx.count("crashes");
     }
@@ -593,7 +612,7 @@ fn enumerate_faults(ctx: &mut Ctx, rng: &mut Rng, sock: &str, lost: bool) {
         for open in [false, true] {
             let nd = 1_006_000u64;
             let first = format!("ar:0:1000000:{}:1400:300:{}", nd, nd);
-            let g0 = Gen { faults_w: false, faults_r: false, crashes: false, lost: false, replay: false, coop: Some(complete), other: false };
+            let g0 = Gen { faults_w: false, faults_r: false, crashes: false, lost: false, replay: false, coop: Some(complete), other: false, hold_first: 0 };
             let base = run_case(ctx, rng, sock, open, default_cfg(), vec![first.clone()], 60, &g0);
             // the cooperative part ends where the drain would start: keep the prefix up to the first probe arrival
             let end = base.iter().skip(1).position(|a| a.starts_with("ar:")).map(|p| p + 1).unwrap_or(base.len());
@@ -601,21 +620,58 @@ fn enumerate_faults(ctx: &mut Ctx, rng: &mut Rng, sock: &str, lost: bool) {
             for k in 1..=base.len() {
                 // crash after the k-th action
                 let mut sc: Vec<String> = base[..k].to_vec(); sc.push("cr".into());
-                let g = Gen { faults_w: false, faults_r: false, crashes: false, lost: false, replay: false, coop: None, other: false };
+                let g = Gen { faults_w: false, faults_r: false, crashes: false, lost: false, replay: false, coop: None, other: false, hold_first: 0 };
                 run_case(ctx, rng, sock, open, default_cfg(), sc, 0, &g); ctx.count("enum:crash-point");
                 // the k-th action, if it serves a write, with each fault
                 if k < base.len() { if let Some(tok) = base[k].strip_prefix("s:") { if tok.starts_with("ws") || tok.starts_with("wa") {
                     let kinds: &[&str] = if lost { &["fL"] } else { &["fR", "fA"] };
                     for f in kinds {
                         let mut sc: Vec<String> = base[..k].to_vec(); sc.push(format!("{}:{}", f, tok));
-                        let g = Gen { faults_w: false, faults_r: false, crashes: false, lost, replay: false, coop: Some(complete), other: false };
+                        let g = Gen { faults_w: false, faults_r: false, crashes: false, lost, replay: false, coop: Some(complete), other: false, hold_first: 0 };
                         run_case(ctx, rng, sock, open, default_cfg(), sc.clone(), 80, &g); ctx.count("enum:write-fault");
                         // … and a crash right after the faulty write
                         sc.push(format!("d:{}", tok)); sc.push("cr".into());
-                        let g = Gen { faults_w: false, faults_r: false, crashes: false, lost, replay: false, coop: None, other: false };
+                        let g = Gen { faults_w: false, faults_r: false, crashes: false, lost, replay: false, coop: None, other: false, hold_first: 0 };
                         run_case(ctx, rng, sock, open, default_cfg(), sc, 0, &g); ctx.count("enum:write-fault-then-crash");
                     }
                 } } }
+            }
+        }
+    }
+}
+
+/// a bookkeeper of a finished lifecycle (still writing its result) overlapping with the next
+/// lifecycle of the same hash: hold the bookkeeper's first or second write, let a retry run k steps
+/// in a cooperative environment, release the write, continue (C05/C08: generation guard).
+fn enumerate_overlap(ctx: &mut Ctx, rng: &mut Rng, sock: &str) {
+    let nd = 1_006_000u64;
+    let ar = format!("ar:0:1000000:{}:1400:300:{}", nd, nd);
+    for open in [false, true] {
+        for first_complete in [false, true] {
+            let g0 = Gen { faults_w: false, faults_r: false, crashes: false, lost: false, replay: false, coop: Some(first_complete), other: false, hold_first: 0 };
+            let base = run_case(ctx, rng, sock, open, default_cfg(), vec![ar.clone()], 60, &g0);
+            let first_bk = if first_complete { format!("s:wsS{}:cor", PRE) } else { "s:wa1:cor".to_string() };
+            let j = match base.iter().position(|a| *a == first_bk) { Some(j) => j, None => continue };
+            for hold_at in [j, j + 2] {
+                if hold_at >= base.len() || !base[hold_at].starts_with("s:w") { continue; }
+                let held_tok = base[hold_at].clone();
+                for second_complete in [true, false] {
+                    let mut s0: Vec<String> = base[..hold_at].to_vec(); s0.push(ar.clone());
+                    let g = Gen { faults_w: false, faults_r: false, crashes: false, lost: false, replay: false, coop: Some(second_complete), other: false, hold_first: 1 };
+                    let full = run_case(ctx, rng, sock, open, default_cfg(), s0.clone(), 80, &g); ctx.count("enum:overlap");
+                    let tail: Vec<String> = full[s0.len().min(full.len())..].to_vec();
+                    let cut = tail.iter().position(|a| *a == held_tok).unwrap_or(tail.len());
+                    for k in 0..cut {
+                        let mut sc = s0.clone(); sc.extend(tail[..k].iter().cloned());
+                        // release: the held write is the oldest parked request, the cooperative environment serves it first
+                        let g = Gen { faults_w: false, faults_r: false, crashes: false, lost: false, replay: false, coop: Some(second_complete), other: false, hold_first: 0 };
+                        run_case(ctx, rng, sock, open, default_cfg(), sc.clone(), 80, &g); ctx.count("enum:overlap");
+                        // … and the same with a crash right after the released write was applied
+                        sc.push(held_tok.clone()); sc.push(format!("d:{}", &held_tok[2..])); sc.push("cr".into());
+                        let g = Gen { faults_w: false, faults_r: false, crashes: false, lost: false, replay: false, coop: None, other: false, hold_first: 0 };
+                        run_case(ctx, rng, sock, open, default_cfg(), sc, 0, &g); ctx.count("enum:overlap-then-crash");
+                    }
+                }
             }
         }
     }
@@ -626,22 +682,23 @@ pub fn run(mut ctx: Ctx) {
     let sock = format!("{}/system.sock", ctx.dir);
     if let Some(path) = ctx.replay.clone() {
         for line in std::fs::read_to_string(path).expect("replay").lines() {
-            if let Some((cfg, open, script)) = parse_line(line) { let l = script.len(); run_case(&mut ctx, &mut rng, &sock, open, cfg, script, l, &Gen { faults_w: false, faults_r: false, crashes: false, lost: false, replay: true, coop: None, other: false }); }
+            if let Some((cfg, open, script)) = parse_line(line) { let l = script.len(); run_case(&mut ctx, &mut rng, &sock, open, cfg, script, l, &Gen { faults_w: false, faults_r: false, crashes: false, lost: false, replay: true, coop: None, other: false, hold_first: 0 }); }
         }
         ctx.finish("replay", "");
         return;
     }
     if let Ok(c) = std::fs::read_to_string("/verif/corpus/system/cases.txt") {
-        for line in c.lines() { if let Some((cfg, open, script)) = parse_line(line) { let l = script.len(); run_case(&mut ctx, &mut rng, &sock, open, cfg, script, l, &Gen { faults_w: false, faults_r: false, crashes: false, lost: false, replay: false, coop: None, other: false }); ctx.count("corpus"); } }
+        for line in c.lines() { if let Some((cfg, open, script)) = parse_line(line) { let l = script.len(); run_case(&mut ctx, &mut rng, &sock, open, cfg, script, l, &Gen { faults_w: false, faults_r: false, crashes: false, lost: false, replay: false, coop: None, other: false, hold_first: 0 }); ctx.count("corpus"); } }
     }
     enumerate_faults(&mut ctx, &mut rng, &sock, false);
+    enumerate_overlap(&mut ctx, &mut rng, &sock);
     if ctx.thorough { enumerate_faults(&mut ctx, &mut rng, &sock, true); }
     let n = if ctx.thorough { 6000 } else { 300 };
     for i in 0..n {
         let open = i % 4 == 3;
         let mut cfg = default_cfg();
         if i % 9 == 8 { cfg.mpp = *rng.pick(&[0u64, 1, 30]); }
-        let g = Gen { faults_w: i % 3 == 1, faults_r: ctx.thorough && i % 10 == 9, crashes: i % 2 == 1, lost: ctx.thorough && i % 17 == 16, replay: false, coop: None, other: i % 4 == 2 };
+        let g = Gen { faults_w: i % 3 == 1, faults_r: ctx.thorough && i % 10 == 9, crashes: i % 2 == 1, lost: ctx.thorough && i % 17 == 16, replay: false, coop: None, other: i % 4 == 2, hold_first: 0 };
         let len = 25 + rng.below(40) as usize;
         run_case(&mut ctx, &mut rng, &sock, open, cfg, vec![], len, &g);
     }
